@@ -123,6 +123,10 @@ BodiesK == {Bn(">", K, NumA("0")), Bn("=", K, Own("x")), Bn("<", K, Fld(VarR("@A
             Un("not", Un("not", Bn(">", K, NumA("0")))),
             Bn("in", K, SetOf(<<NumA("1")>>)),
             Bn("and", Bn("and", Own("p"), Bn(">", K, NumA("0"))), Own("q")),
+            Un("not", Bn("implies", Bn(">", K, NumA("0")), Bn(">", Fld(VarR("@A"), "n"), K))),
+            Un("not", Bn("implies", Fld(VarR("@A"), "b"), Bn(">", K, NumA("0")))),
+            Un("not", Bn("implies", Bn("<", K, Fld(VarR("@A"), "n")), Own("p"))),
+            Bn("implies", Bn(">", K, NumA("0")), Bn(">", Fld(VarR("@A"), "n"), K)),
             \* bodies in which every occurrence of the variable can be folded away
             Bn("and", Own("p"), Bn("implies", Bn(">", K, NumA("0")), Bn(">", K, NumA("0")))),
             Bn(">", Idx(Own("ys"), NumA("0")), Bn("-", K, K)),
@@ -137,9 +141,11 @@ QCore == {Qn(q, "k", d, b) : q \in {"forall", "exists"}, d \in {Own("xs"), SetOf
                              b \in {Bn("and", Bn(">", K, NumA("0")), Bn("<", K, NumA("2"))), Bn("and", Bn(">", K, NumA("0")), Own("p")),
                                     Bn("or", Bn(">", K, NumA("0")), Own("p")), Bn(">", K, NumA("0")),
                                     Bn("and", Bn(">", K, NumA("0")), Fld(VarR("@A"), "b"))}}
+QInDomain == {Qn(q, "x", SetOf(<<Qn(q2, "k", d, Bn(">", K, NumA("0"))), Own("flag")>>), Bn("or", VarR("@x"), Own("ok"))) :
+                 q \in {"forall", "exists"}, q2 \in {"forall", "exists"}, d \in {Own("xs"), Fld(VarR("@A"), "ns"), SetOf(<<NumA("1"), Own("y")>>)}}
 QuantExprs ==
   Quants1 \cup Quants2
-  \cup {Un("not", t) : t \in Quants1}
+  \cup {Un("not", t) : t \in Quants1} \cup QInDomain
   \* quantifiers under stacked negations and under negated disjunctions / implications
   \cup {Un("not", Un("not", t)) : t \in QCore} \cup {Un("not", Un("not", Un("not", t))) : t \in QCore}
   \cup {Un("not", Bn("or", Own("p"), Un("not", t))) : t \in QCore} \cup {Un("not", Bn("implies", Own("p"), Un("not", t))) : t \in QCore}
@@ -238,6 +244,9 @@ ClashTerms ==
                                    Bn("and", Bn("=", K, Own("a")), Bn("=", K, StrA("$s")))}}
   \cup {Qn("forall", "k", SetOf(<<StrA("$s"), StrA("$t")>>), b) :
                             b \in {Bn(">", K, NumA("0")), Bn("or", Bn("=", K, Own("a")), Bn(">", Bn("+", K, NumA("1")), NumA("0"))), Un("not", K)}}
+  \* the argument of an overloaded function (message | 4 numbers ; compound | numbers) reused at number type
+  \cup {Bn("and", Bn(">", Call(f, Own("q")), NumA("0")), Bn("=", Own("q"), NumA("1"))) : f \in {"roll", "pitch", "yaw", "max", "min", "gcd"}}
+  \cup {Bn("or", Bn(">", Bn("+", Own("q"), NumA("1")), NumA("0")), Bn("<", Call(f, Own("q")), NumA("3"))) : f \in {"yaw", "min", "gcd", "len", "sum"}}
   \* top level of a predicate is not boolean
   \cup {Bn("+", Own("x"), NumA("1")), NumA("1"), StrA("$s"), SetOf(<<NumA("1"), NumA("2")>>), Call("abs", Own("x")),
         Rng("[", NumA("1"), NumA("2"), "]"), Un("-", Own("x")), Call("len", Own("xs"))}
@@ -295,6 +304,7 @@ Members ==
     [] Family = "slots"   -> SlotExprs
     [] Family = "clash"   -> ClashTerms
     [] Family = "rand"    -> RandTerms
+    [] Family = "qdom"    -> QInDomain
     [] OTHER -> {}
 
 TInit == cst \in Members
